@@ -245,8 +245,46 @@ func main() {
 	if s := os.Getenv("VERIF_BIN_SUFFIX"); s != "" {
 		seams += "." + s
 	}
+	if len(os.Args) == 2 && os.Args[1] == "-chained" {
+		// files that ANOTHER seam generator rewrites as well (e.g. chaincore/chain/state/state_context.go,
+		// keytap seam): the input is that generator's output, so both rewrites end up in one copy; the
+		// result is listed in zz-sync-chained.json, which tools/overlay.py merges last.
+		generate(root, seams, "sync.chained.conf", "sync-chained", "zz-sync-chained.json", true)
+		return
+	}
+	generate(root, seams, "sync.conf", "sync", "sync.json", false)
+}
+
+// otherSeamCopy returns the copy of orig produced by another seam generator, if any.
+func otherSeamCopy(seams, orig string) string {
+	found := ""
+	js, _ := filepath.Glob(filepath.Join(seams, "*.json"))
+	sort.Strings(js)
+	for _, j := range js {
+		if b := filepath.Base(j); b == "sync.json" || b == "zz-sync-chained.json" {
+			continue
+		}
+		data, err := os.ReadFile(j)
+		if err != nil {
+			continue
+		}
+		var m struct{ Replace map[string]string }
+		if json.Unmarshal(data, &m) != nil {
+			continue
+		}
+		if c, ok := m.Replace[orig]; ok {
+			if found != "" && found != c {
+				die("%s is rewritten by two other seams (%s, %s): cannot chain", orig, found, c)
+			}
+			found = c
+		}
+	}
+	return found
+}
+
+func generate(root, seams, confName, sub, jsonName string, chained bool) {
 	mut := os.Getenv("VERIF_MUT_SRC")
-	conf, err := os.ReadFile(filepath.Join(root, "tools", "seamgen", "sync.conf"))
+	conf, err := os.ReadFile(filepath.Join(root, "tools", "seamgen", confName))
 	if err != nil {
 		die("%v", err)
 	}
@@ -280,6 +318,11 @@ func main() {
 					from = filepath.Join(mut, rel)
 				}
 			}
+			if chained {
+				if c := otherSeamCopy(seams, orig); c != "" {
+					from = c // that generator already honoured VERIF_MUT_SRC
+				}
+			}
 			src, err := os.ReadFile(from)
 			if err != nil {
 				die("%v", err)
@@ -288,23 +331,23 @@ func main() {
 			if out == nil {
 				continue
 			}
-			dst := filepath.Join(seams, "sync", "src", rel)
+			dst := filepath.Join(seams, sub, "src", rel)
 			writeIfChanged(dst, out)
 			replace[orig] = dst
 		}
 	}
 	// drop stale copies of earlier runs
-	_ = filepath.Walk(filepath.Join(seams, "sync", "src"), func(p string, info os.FileInfo, err error) error {
+	_ = filepath.Walk(filepath.Join(seams, sub, "src"), func(p string, info os.FileInfo, err error) error {
 		if err != nil || info.IsDir() {
 			return nil
 		}
-		rel, _ := filepath.Rel(filepath.Join(seams, "sync", "src"), p)
+		rel, _ := filepath.Rel(filepath.Join(seams, sub, "src"), p)
 		if replace[filepath.Join(repoRoot, rel)] != p {
 			_ = os.Remove(p)
 		}
 		return nil
 	})
 	data, _ := json.MarshalIndent(map[string]any{"Replace": replace}, "", " ")
-	writeIfChanged(filepath.Join(seams, "sync.json"), append(data, '\n'))
-	fmt.Printf("seamgen: %d files rewritten into %s\n", len(replace), seams)
+	writeIfChanged(filepath.Join(seams, jsonName), append(data, '\n'))
+	fmt.Printf("seamgen: %d files rewritten into %s/%s\n", len(replace), seams, sub)
 }
